@@ -18,7 +18,8 @@ RULE = ("ENUMERATED (complete): (i) every input-validation class of solve (non-p
         "results; (iv) unknown keys (misspelt, empty, prefix, non-string) must raise exactly ValueError before any evaluation. SAMPLED: "
         "valid calls over random small problems and the whole option space incl. rarely used switches, watched for exceptions, livelock "
         "(> 10,000 iterations without an evaluation), undocumented flags, empty messages, str() failures. Non-trivial/distinct = "
-        "(class, key, value, problem) tuples and sampled configuration hashes")
+        "(class, key, value, problem) tuples and sampled configuration hashes"
+        ' Second session: 700 (quick) / 14,000 (thorough) valid calls borrowed from fourteen generator families of the other solver-level checks (which count an exception out of solve() as not theirs); regression cases for repaired findings.')
 ASSUMPTIONS = ["expectation table for parameter values written by hand from docs/advanced.rst (type; count >= 0 or >= 1; tolerance >= 0; fraction in "
                "[0,1]; factor >= 1); clearly wrong types only (str, list, None where not allowed, non-integral float for counts)",
                "findings are keyed by mechanism: raise site / (key, boundary value) / configuration, see KNOWN_FINDINGS.txt"]
